@@ -175,7 +175,8 @@ def c05(tier):
     one = dict(base, keys="KOne", look="LOne", vals="VShare", maxlive=1, maxbatch=2, features="FBatch",
                view="ViewHist")
     return generic("C05", tier,
-                   [dict(base, level=5), dict(one, level=9)],
+                   [dict(base, level=5), dict(one, level=9),
+                    dict(base, level=6, keys="KTwin", look="LTwin", vals="VShare", maxbatch=3, features="FBatch")],
                    [dict(one, level=11), dict(base, level=6, maxbatch=3),
                     dict(base, level=5, keys="KShare", look="LShare", vals="VShare", maxbatch=3)],
                    modes=("batch",), ntr=(100, 1500),
@@ -258,9 +259,11 @@ def c03(tier):
     inv = ["ProofComplete", "ProofOnPath", "ProofSound", "EmitStC03"]
     base = dict(features="FDirect", invariants=inv, emit=None, prune="OnlyNoPrune")
     return generic("C03", tier,
-                   [dict(base, level=4)],
+                   [dict(base, level=4), dict(base, level=4, keys="KThresh", look="LThresh", vals="VThreshC")],
                    [dict(base, level=5, keys="KFull", look="LFull", vals="VQuick", maxlive=3),
-                    dict(base, level=5, prune="OnlyPrune")],
+                    dict(base, level=5, prune="OnlyPrune"),
+                    dict(base, level=4, keys="KThresh", look="LThresh", vals="VThreshA"),
+                    dict(base, level=4, keys="KThresh", look="LThresh", vals="VThreshB")],
                    modes=(), need_tags=("has-extension", "has-branch", "embedded-child", "hashed-child"),
                    sim=dict(base, features="FDirectNoop", keys="KFull", look="LFull", vals="VQuick", maxlive=4,
                             emit="EmitC03", invariants=["ProofComplete", "ProofOnPath"]), sim_n=(12, 120),
